@@ -8,7 +8,7 @@
 //!              the *uncompressed* encoding of the same buffer (attribute bit 3 = font page in 512-character mode);
 //!  * `load.*`  `Buffer::from_bytes(compressed)` and `Buffer::from_bytes(uncompressed)` give the same picture cell for
 //!              cell (char, colours, flags, font page) and the same size.
-use icy_engine::{AttributedChar, BitFont, Buffer, IceMode, SaveOptions, TextAttribute, TextPane};
+use icy_engine::{AttributedChar, BitFont, Buffer, BufferType, FontMode, IceMode, PaletteMode, SaveOptions, TextAttribute, TextPane};
 use icyv::proptest::prelude::*;
 use icyv::serde_json::json;
 use icyv::{Engine, PartCfg, Verdict};
@@ -37,6 +37,7 @@ struct Cell {
 
 const BLANK: Cell = Cell { ch: b' ', at: 0x07, pg: 0, rp: 0 };
 
+#[derive(Clone)]
 struct Model {
     w: usize,
     h: usize,
@@ -47,11 +48,47 @@ struct Model {
     cells: Vec<Cell>,
     /// storage-shape perturbation (icyv::shape::perturb), 0 = none; never changes the picture inside the buffer rectangle
     shape: u8,
+    /// public state fields of the document, independent of what the cells use (0 = as Buffer::new leaves them), see `State`
+    state: u16,
+}
+
+/// Decoded `state` code: bits 0-1 font_mode (Sauce, Single, FixedSize, Unlimited), bits 2-3 palette_mode (Fixed16, RGB, Free8,
+/// Free16), bits 4-6 buffer_type (CP437, Unicode, Petscii, Atascii, Viewdata), bit 7 is_terminal_buffer, bit 8 ice_mode
+/// Unlimited instead of the case's Blink/Ice (Unlimited reads and writes attribute bit 7 as blink, like Blink).
+struct State {
+    font_mode: u8,
+    palette_mode: u8,
+    buffer_type: u8,
+    terminal: bool,
+    unlimited: bool,
+}
+
+const STATE_FIELDS: [(&str, u16); 5] = [("font_mode", 0x003), ("palette_mode", 0x00C), ("buffer_type", 0x070), ("is_terminal_buffer", 0x080), ("ice_mode_unlimited", 0x100)];
+const FONT_MODES: [&str; 4] = ["Sauce", "Single", "FixedSize", "Unlimited"];
+
+fn state_of(code: u16) -> State {
+    State { font_mode: (code & 3) as u8, palette_mode: ((code >> 2) & 3) as u8, buffer_type: (((code >> 4) & 7) % 5) as u8, terminal: code & 0x80 != 0, unlimited: code & 0x100 != 0 }
+}
+
+/// is the effective ice mode Ice (attribute bit 7 = background intensity)?
+fn is_ice(m: &Model) -> bool {
+    m.ice && !state_of(m.state).unlimited
 }
 
 fn build(m: &Model) -> (Buffer, &'static str) {
     let mut buf = Buffer::new((m.w as i32, m.h as i32));
-    buf.ice_mode = if m.ice { IceMode::Ice } else { IceMode::Blink };
+    let st = state_of(m.state);
+    buf.ice_mode = if st.unlimited {
+        IceMode::Unlimited
+    } else if m.ice {
+        IceMode::Ice
+    } else {
+        IceMode::Blink
+    };
+    buf.font_mode = [FontMode::Sauce, FontMode::Single, FontMode::FixedSize, FontMode::Unlimited][st.font_mode as usize];
+    buf.palette_mode = [PaletteMode::Fixed16, PaletteMode::RGB, PaletteMode::Free8, PaletteMode::Free16][st.palette_mode as usize];
+    buf.buffer_type = [BufferType::CP437, BufferType::Unicode, BufferType::Petscii, BufferType::Atascii, BufferType::Viewdata][st.buffer_type as usize];
+    buf.is_terminal_buffer = st.terminal;
     let mut used = [false; 2];
     for c in &m.cells {
         used[(c.pg & 1) as usize] = true;
@@ -70,7 +107,7 @@ fn build(m: &Model) -> (Buffer, &'static str) {
                 a.set_is_bold(true);
             }
             if c.rp & 2 != 0 {
-                if m.ice {
+                if is_ice(m) {
                     a.set_is_blinking(true);
                 } else if c.at & 0x80 != 0 {
                     a.set_background(((c.at >> 4) & 0x07) as u32 + 8);
@@ -516,7 +553,12 @@ fn evaluate(m: &Model) -> Result<Eval, Failure> {
                 _ => "uncompressed_only",
             };
             let e = a.err().or(b.err()).map(|e| e.to_string()).unwrap_or_default();
-            fails.push(Failure { sev: 1, key: format!("load_err|{which}"), msg: format!("from_bytes failed ({which}): {e}"), row: None });
+            // documented refusal: the engine's reader accepts widths 1..=4096 only and says so, for both encodings alike; the
+            // statement's reader clause is then vacuous (the specification clause above still holds the writer to account)
+            let refused = which == "both" && w > 4096 && e.contains("Width out of range");
+            if !refused {
+                fails.push(Failure { sev: 1, key: format!("load_err|{which}"), msg: format!("from_bytes failed ({which}): {e}"), row: None });
+            }
         }
     }
 
@@ -596,21 +638,41 @@ fn judge(m: &Model, ev: Eval, tolerate: bool, count: bool) -> Result<(Stats, usi
     Ok((st, tolerated))
 }
 
-/// evaluate + judge; a failure of a case with a perturbed storage shape is re-checked on the plain shape: if the plain
-/// buffer fails with the same key the shape is irrelevant and the key stays as it is, otherwise the key names the shape
-/// (the defect needs that storage shape).
+/// evaluate + judge; a failure of a case with a perturbed storage shape or non-default document state is re-checked on
+/// the plain document: if that fails with the same key, shape and state are irrelevant and the key stays as it is.
+/// Otherwise the shape alone and each state field alone are tried, and the key names the one the defect needs.
 fn assess(m: &Model, tolerate: bool, count: bool) -> Result<(Stats, usize), Failure> {
     let r = evaluate(m).and_then(|ev| judge(m, ev, tolerate, count));
+    let perturbed = m.shape % icyv::shape::CODES != 0 || m.state & !0x100 != 0;
     match r {
-        Err(f) if m.shape % icyv::shape::CODES != 0 => {
-            let plain = Model { w: m.w, h: m.h, ice: m.ice, sauce: m.sauce, pages: m.pages, cells: m.cells.clone(), shape: 0 };
-            match evaluate(&plain).and_then(|ev| judge(&plain, ev, tolerate, false)) {
-                Err(g) if g.key == f.key => Err(f),
-                _ => {
-                    let name = icyv::shape::perturb(&mut Buffer::new((1, 1)), m.shape);
-                    Err(Failure { key: format!("{}|shape={name}", f.key), msg: format!("{} [storage shape {name}; the same picture stored plainly does not fail this way]", f.msg), ..f })
+        Err(f) if perturbed => {
+            // "the same way" = the same oracle clause (the run type in the key may change with the look-ahead context).
+            // ice_mode Unlimited changes what attribute bit 7 means, i.e. the picture: it stays as it is in every variant.
+            let clause = |k: &str| k.split('|').next().unwrap_or("").to_string();
+            let fails_same = |mm: &Model| matches!(evaluate(mm).and_then(|ev| judge(mm, ev, tolerate, false)), Err(g) if clause(&g.key) == clause(&f.key));
+            let keep = m.state & 0x100;
+            if fails_same(&Model { shape: 0, state: keep, ..m.clone() }) {
+                return Err(f);
+            }
+            let mut needs = String::new();
+            if m.shape % icyv::shape::CODES != 0 && fails_same(&Model { state: keep, ..m.clone() }) {
+                needs = format!("shape={}", icyv::shape::perturb(&mut Buffer::new((1, 1)), m.shape));
+            } else {
+                for (name, mask) in STATE_FIELDS {
+                    if mask != 0x100 && m.state & mask != 0 && fails_same(&Model { shape: 0, state: (m.state & mask) | keep, ..m.clone() }) {
+                        let st = state_of(m.state);
+                        needs = match name {
+                            "font_mode" => format!("font_mode={}", FONT_MODES[st.font_mode as usize]),
+                            _ => name.to_string(),
+                        };
+                        break;
+                    }
                 }
             }
+            if needs.is_empty() {
+                needs = "shape+state".into();
+            }
+            Err(Failure { key: format!("{}|{needs}", f.key), msg: format!("{} [needs {needs} (shape code {}, state code {:#05x}); the same picture in a plain document does not fail this way]", f.msg, m.shape, m.state), ..f })
         }
         r => r,
     }
@@ -642,6 +704,9 @@ struct RowBlock {
     /// columns, blink flag (ignored by the ice mode the blocks use) in odd columns, UNDERLINE flag where (row index + column) is a multiple of 3
     #[serde(default)]
     rep: u8,
+    /// document state code (see `State`), 0 = as Buffer::new
+    #[serde(default)]
+    state: u16,
 }
 
 fn block_cell_rp(rep: u8, idx: u64, col: u64) -> u8 {
@@ -704,7 +769,10 @@ fn make_block(radix: u8, table: &[(u64, u64)], i: u64, tol: bool) -> RowBlock {
     // half of the blocks with every attribute as from_u8 stores it, the rest cycling through the representation variants
     let q = i / 2;
     let rep = if i % 2 == 0 { 0 } else { 1 + (q % 3) as u8 };
-    RowBlock { radix, w: wi as u8 + 1, first, n: (rows - first).min(BLOCK) as u32, tol, shape, rep }
+    // half of the blocks with the document state Buffer::new gives, the rest with a state code spread over all field values
+    let hsh = (i + 1).wrapping_mul(0x9E37_79B9_7F4A_7C15) >> 24;
+    let state = if hsh & 1 == 0 { 0 } else { ((hsh >> 1) & 0x1FF) as u16 };
+    RowBlock { radix, w: wi as u8 + 1, first, n: (rows - first).min(BLOCK) as u32, tol, shape, rep, state }
 }
 
 fn block_model(b: &RowBlock, first: u64, n: u32) -> Model {
@@ -716,7 +784,7 @@ fn block_model(b: &RowBlock, first: u64, n: u32) -> Model {
         }
         cells.extend(row);
     }
-    Model { w: b.w as usize, h: n as usize, ice: true, sauce: false, pages: [0, 1], cells, shape: b.shape }
+    Model { w: b.w as usize, h: n as usize, ice: true, sauce: false, pages: [0, 1], cells, shape: b.shape, state: b.state }
 }
 
 fn check_block(b: &RowBlock) -> Verdict {
@@ -734,6 +802,8 @@ fn check_block(b: &RowBlock) -> Verdict {
             let nt = st.row_nt.iter().any(|x| *x);
             let base = if b.shape % icyv::shape::CODES != 0 {
                 format!("shape:{}", st.shape)
+            } else if b.state != 0 {
+                format!("state/font_mode={}", FONT_MODES[(b.state & 3) as usize])
             } else if b.rep % 4 != 0 {
                 format!("rep{}", b.rep % 4)
             } else {
@@ -754,7 +824,7 @@ fn check_block(b: &RowBlock) -> Verdict {
             for idx in cand {
                 let m1 = block_model(b, idx, 1);
                 if let Err(f1) = assess(&m1, b.tol, false) {
-                    let single = RowBlock { radix: b.radix, w: b.w, first: idx, n: 1, tol: false, shape: b.shape, rep: b.rep };
+                    let single = RowBlock { radix: b.radix, w: b.w, first: idx, n: 1, tol: false, shape: b.shape, rep: b.rep, state: b.state };
                     let row = &m1.cells;
                     return Verdict::fail(f1.key, format!("single-row case {} = cells {} : {}", json!(single), json!(row), f1.msg.replace("row 0 ", "")));
                 }
@@ -809,6 +879,9 @@ struct Pic {
     /// false: every piece's `rp` is ignored (all attributes stored the way from_u8 stores them)
     #[serde(default)]
     reps: bool,
+    /// document state code (see `State`), 0 = as Buffer::new
+    #[serde(default)]
+    state: u16,
 }
 
 fn idx(v: u8, len: usize) -> usize {
@@ -874,19 +947,24 @@ fn expand_row(p: &Pic, pieces: &[Piece]) -> Vec<Cell> {
 }
 
 fn pic_model(p: &Pic) -> Model {
-    let mut cells = Vec::with_capacity(p.w as usize * p.rows.len());
-    for r in &p.rows {
+    // pictures wider than 200 columns keep their first two rows only (the compressor's look-ahead is quadratic in the width)
+    let rows = if p.w > 200 { &p.rows[..p.rows.len().min(2)] } else { &p.rows[..] };
+    let mut cells = Vec::with_capacity(p.w as usize * rows.len());
+    for r in rows {
         cells.extend(expand_row(p, r));
     }
-    Model { w: p.w as usize, h: p.rows.len(), ice: p.ice, sauce: p.sauce, pages: [p.pages.0 as usize, p.pages.1 as usize], cells, shape: p.shape }
+    Model { w: p.w as usize, h: rows.len(), ice: p.ice, sauce: p.sauce, pages: [p.pages.0 as usize, p.pages.1 as usize], cells, shape: p.shape, state: p.state }
 }
 
 fn pic_strategy(tol: bool) -> BoxedStrategy<Pic> {
     let w = prop_oneof![
-        4 => 1u16..=200,
-        3 => proptest::sample::select(vec![63u16, 64, 65, 127, 128, 129]),
-        2 => 1u16..=12,
-        1 => 190u16..=200,
+        400 => 1u16..=200,
+        300 => proptest::sample::select(vec![63u16, 64, 65, 127, 128, 129]),
+        200 => 1u16..=12,
+        100 => 190u16..=200,
+        // beyond one byte of column count (the header holds 16 bits): few rows (see pic_model), run-structured content
+        6 => proptest::sample::select(vec![255u16, 256, 257, 300, 320, 511, 512, 513]),
+        1 => proptest::sample::select(vec![1000u16, 1000, 1000, 4096]),
     ];
     let len = prop_oneof![
         6 => 1u8..=5,
@@ -905,8 +983,8 @@ fn pic_strategy(tol: bool) -> BoxedStrategy<Pic> {
     let attrs = prop_oneof![2 => proptest::collection::vec(atb, 1..=3), 1 => Just(Vec::new())];
     let pages = proptest::sample::select(vec![(0u8, 1u8), (0, 1), (0, 2), (1, 0), (1, 3), (2, 1)]);
     let shape = prop_oneof![6 => Just(0u8), 4 => 1u8..icyv::shape::CODES];
-    (w, any::<bool>(), prop_oneof![3 => Just(false), 1 => Just(true)], 1u8..=2, pages, chars, attrs, 0u8..=2, rows, shape, any::<bool>())
-        .prop_map(move |(w, ice, sauce, npages, pages, chars, attrs, fill, rows, shape, reps)| Pic { w, ice, sauce, npages, pages, chars, attrs, fill, rows, tol, shape, reps })
+    (w, any::<bool>(), prop_oneof![3 => Just(false), 1 => Just(true)], 1u8..=2, pages, chars, attrs, 0u8..=2, rows, shape, (any::<bool>(), prop_oneof![1 => Just(0u16), 1 => 0u16..512]))
+        .prop_map(move |(w, ice, sauce, npages, pages, chars, attrs, fill, rows, shape, (reps, state))| Pic { w, ice, sauce, npages, pages, chars, attrs, fill, rows, tol, shape, reps, state })
         .boxed()
 }
 
@@ -955,6 +1033,14 @@ fn minimize_pic(p: &Pic) -> Vec<Pic> {
     if p.reps {
         out.push(Pic { reps: false, ..p.clone() });
     }
+    if p.state != 0 {
+        out.push(Pic { state: 0, ..p.clone() });
+        for (_, mask) in STATE_FIELDS {
+            if p.state & mask != 0 && p.state & !mask != 0 {
+                out.push(Pic { state: p.state & !mask, ..p.clone() });
+            }
+        }
+    }
     if p.fill != 1 {
         out.push(Pic { fill: 1, ..p.clone() });
     }
@@ -962,7 +1048,7 @@ fn minimize_pic(p: &Pic) -> Vec<Pic> {
 }
 
 fn check_pic(p: &Pic) -> Verdict {
-    if p.w == 0 || p.w > 200 || p.rows.is_empty() || p.rows.len() > 30 || p.pages.0 == p.pages.1 || p.pages.0 > 8 || p.pages.1 > 8 {
+    if p.w == 0 || p.w > 4096 || p.rows.is_empty() || p.rows.len() > 30 || p.pages.0 == p.pages.1 || p.pages.0 > 8 || p.pages.1 > 8 {
         return Verdict::discard("outside the generated domain");
     }
     let m = pic_model(p);
@@ -975,21 +1061,92 @@ fn check_pic(p: &Pic) -> Verdict {
             };
             let nt = st.row_nt.iter().any(|x| *x);
             // does any cell store its attribute byte in a non-default representation?
-            let reps = m.cells.iter().any(|c| (c.rp & 1 != 0 && c.at & 0x08 != 0) || (c.rp & 2 != 0 && (m.ice || c.at & 0x80 != 0)) || c.rp & 4 != 0);
-            Verdict::pass(
-                nt,
-                if p.shape % icyv::shape::CODES == 0 {
-                    format!(
-                        "{alpha}/{}{}{}",
-                        if st.mode512 { "512" } else { "single" },
-                        if reps { "/reps" } else { "" },
-                        if tolerated > 0 { "+known_font_page_rows" } else { "" }
-                    )
-                } else {
-                    format!("shape:{}{}", st.shape, if tolerated > 0 { "+known_font_page_rows" } else { "" })
-                },
-            )
+            let reps = m.cells.iter().any(|c| (c.rp & 1 != 0 && c.at & 0x08 != 0) || (c.rp & 2 != 0 && (is_ice(&m) || c.at & 0x80 != 0)) || c.rp & 4 != 0);
+            let known = if tolerated > 0 { "+known_font_page_rows" } else { "" };
+            let class = if p.w > 200 {
+                format!("wide/{}{known}", if st.mode512 { "512" } else { "single" })
+            } else if p.shape % icyv::shape::CODES != 0 {
+                format!("shape:{}{known}", st.shape)
+            } else if p.state != 0 {
+                format!("state/font_mode={}/{}{known}", FONT_MODES[(p.state & 3) as usize], if st.mode512 { "512" } else { "single" })
+            } else {
+                format!("{alpha}/{}{}{known}", if st.mode512 { "512" } else { "single" }, if reps { "/reps" } else { "" })
+            };
+            Verdict::pass(nt, class)
         }
+        Err(f) => Verdict::fail(f.key, f.msg),
+    }
+}
+
+// ------------------------------------------------------------------------------------------------------------------
+// part: wide rows with one run placed at a chosen distance from the row end
+// ------------------------------------------------------------------------------------------------------------------
+
+/// One row of width `w`: blanks, then at column `w - rem` a stretch of `len` cells of run type `ty` (0 none: character and
+/// attribute change from cell to cell, 1 character: same character, attributes alternate, 2 attribute: same attribute,
+/// characters alternate, 3 both: equal cells), then a different filler cell up to the row end.
+#[derive(Clone, Debug, Hash, Serialize, Deserialize)]
+struct WideRun {
+    w: u16,
+    rem: u16,
+    ty: u8,
+    len: u8,
+    #[serde(default)]
+    state: u16,
+}
+
+const WIDE_WIDTHS: [u16; 11] = [255, 256, 257, 300, 320, 511, 512, 513, 1000, 4096, 65535];
+const WIDE_REMS: [u16; 9] = [1, 63, 64, 65, 255, 256, 257, 511, 512];
+
+fn wide_table(lens: &[u8]) -> Vec<WideRun> {
+    let mut t = Vec::new();
+    for w in WIDE_WIDTHS {
+        for rem in WIDE_REMS {
+            if rem > w {
+                continue;
+            }
+            for ty in 0..4u8 {
+                for &len in lens {
+                    if len as u16 <= rem {
+                        let k = t.len() as u64;
+                        // every fourth case with a non-default document state
+                        let hsh = (k + 1).wrapping_mul(0x9E37_79B9_7F4A_7C15) >> 24;
+                        let state = if k % 4 == 3 { ((hsh >> 1) & 0x1FF) as u16 } else { 0 };
+                        t.push(WideRun { w, rem, ty, len, state });
+                    }
+                }
+            }
+        }
+    }
+    t
+}
+
+fn wide_model(c: &WideRun) -> Model {
+    let w = c.w as usize;
+    let start = w - c.rem as usize;
+    let mut cells = vec![BLANK; w];
+    for i in 0..c.len as usize {
+        let alt = (i & 1) as u8;
+        cells[start + i] = match c.ty % 4 {
+            0 => Cell { ch: b'E' + (i % 7) as u8, at: 0x4A + 0x11 * (i % 3) as u8, pg: 0, rp: 0 },
+            1 => Cell { ch: b'B', at: if alt == 0 { 0x1E } else { 0x2D }, pg: 0, rp: 0 },
+            2 => Cell { ch: b'C' + alt, at: 0x3C, pg: 0, rp: 0 },
+            _ => Cell { ch: b'A', at: 0x1E, pg: 0, rp: 0 },
+        };
+    }
+    for c2 in cells.iter_mut().skip(start + c.len as usize) {
+        *c2 = Cell { ch: b'z', at: 0x70, pg: 0, rp: 0 };
+    }
+    Model { w, h: 1, ice: true, sauce: false, pages: [0, 1], cells, shape: 0, state: c.state }
+}
+
+fn check_wide(c: &WideRun) -> Verdict {
+    if c.w == 0 || c.rem == 0 || c.rem > c.w || c.len == 0 || c.len > 64 || c.len as u16 > c.rem {
+        return Verdict::discard("malformed wide-run case");
+    }
+    let m = wide_model(c);
+    match assess(&m, false, true) {
+        Ok((st, _)) => Verdict::pass(st.row_nt.iter().any(|x| *x), format!("w{}{}", c.w, if c.w > 4096 { "(reader refuses: spec decoder only)" } else { "" })),
         Err(f) => Verdict::fail(f.key, f.msg),
     }
 }
@@ -1048,6 +1205,9 @@ fn main() {
          blink flag set under ice mode, UNDERLINE flag set (not storable) - mixed inside rows, incl. adjacent equal bytes in different representations and equal colour numbers with different BOLD (classes rep<n>, /reps); 40 % of the pictures and of the row blocks are saved from a buffer whose storage shape was perturbed by icyv::shape::perturb (extra allocated lines, over-long rows, larger layer, \
          different terminal size, combined) which leaves the picture inside the buffer rectangle unchanged (class shape:<name>; a failure that needs the shape carries |shape=<name> in its key). \
          Non-trivial: a case containing a row with a run of >= 3 equal cells or at least two runs of different type in its compressed form. Distinct by case hash (a block counts once; the row totals are printed as '[C06] rows:'). \
+         wide_runs: one row of width 255,256,257,300,320,511,512,513,1000,4096,65535 holding blanks, one stretch of each run type (none/char/attr/both) of every length 1..=64 starting where 1,63,64,65,255,256,257,511,512 columns remain, then a filler; \
+         the engine's reader refuses widths above 4096 for both encodings alike (documented refusal: there only the specification decoder judges); pictures also draw widths 255..=513, 1000, 4096 (first two rows only). \
+         Document state: half of the row blocks and pictures and a quarter of the wide rows set the public Buffer fields font_mode, palette_mode, buffer_type, is_terminal_buffer and ice_mode Unlimited independently of what the cells use (classes state/..; a failure that needs one carries |font_mode=<v> etc. in its key). \
          Row-level handling of the known font-page finding: {}.",
         if tol {
             "ACTIVE (an open entry with key prefix 'ref.cell_mismatch.font_page_bit|run=both' is listed): a row with two adjacent cells equal but for the font page that fails with exactly that key is counted \
@@ -1072,8 +1232,13 @@ fn main() {
     let (total9, table9) = block_table(9, 7);
     eng.extra("rows_3x3_domain", json!({"max_width": 7, "rows": table9.iter().map(|t| t.1).sum::<u64>(), "blocks": total9}));
     eng.enumerated(PartCfg::new("rows_3x3", 0, 0).exhaustive(true), total9, move |i| make_block(9, &table9, i, false), check_block);
+    let lens: Vec<u8> = (1..=64).collect();
+    let wide = wide_table(&lens);
+    eng.extra("wide_runs_domain", json!({"widths": WIDE_WIDTHS, "columns_remaining_at_run_start": WIDE_REMS, "run_types": 4, "lengths": lens.len(), "cases": wide.len()}));
+    let wide_n = wide.len() as u64;
+    eng.enumerated(PartCfg::new("wide_runs", 0, 0).exhaustive(true), wide_n, move |i| wide[i as usize].clone(), check_wide);
     eng.enumerated(PartCfg::new("rows_2x2", 0, 0).exhaustive(true), total4, move |i| make_block(4, &table4, i, false), check_block);
-    eng.generated_min(PartCfg::new("pictures", 420_000, 6_000_000), move || pic_strategy(tol), check_pic, |_| "-".to_string(), minimize_pic);
+    eng.generated_min(PartCfg::new("pictures", 600_000, 6_000_000), move || pic_strategy(tol), check_pic, |_| "-".to_string(), minimize_pic);
 
     unsafe {
         libc::atexit(row_report);
